@@ -492,7 +492,10 @@ root is non-zero (i.e. away from the non-differentiable set: `x ≠ 0`, `x ≠ y
 with derivative `derivative(x)(d)_k` — as coded: `InnerProductOperator((1/‖x‖)·x)`,
 `InnerProductOperator((1/dist)·(x - y))`, `(Re x·Re d + Im x·Im d)/|x|`,
 `PointwiseInner(F/|F|)`.  Gâteaux form (with `leaf_deriv_is_linear`), as for
-`model_line_hasDerivAt`; `HasFDerivAt` on `ℝⁿ` is not formalised. -/
+`model_line_hasDerivAt`; the Fréchet form is `leaf_hasFDerivAt`.  (The statement holds for every
+leaf term; the tie to the code is for `Leaf.wf` ones: `PointwiseNorm` with one component takes a
+different code path and is answered `err:wf` by the driver.  Rounding of `Float` is outside the
+statement: it is about the real-number reading of the executed definitions.) -/
 theorem C06.leaf_line_hasDerivAt [DecidableEq ℝ] (l : Leaf ℝ) (x d : Vec ℝ) (k : Nat)
     (hk : k < l.ran) (hs : l.ssq x k ≠ 0) :
     ∃ j, l.deriv x = some j ∧
